@@ -55,7 +55,7 @@ theorem pidsSub_modW (u : Nat) (L : List Nat) (u' : Nat) (f : Watcher → Watche
 
 theorem pidsSubLeafW (u : Nat) (L : List Nat) : LeafW (PidsSub u L) where
   emit := fun o => by apply pidsSub_same; intro s; simp only [emit, modS]; split <;> rfl
-  setK := fun k => by apply pidsSub_same; intro s; rfl
+  runK := fun f _ => by apply pidsSub_same; intro s; rfl
   emitEv := fun w t p x => by apply pidsSub_same; intro s; simp only [emitEv, modS]; split <;> rfl
   popPid := fun u' p => pidsSub_modW u L u' _ (fun w => ⟨rfl, fun x hx => (List.mem_filter.mp hx).1⟩)
   bumpHook := fun u' h i => pidsSub_modW u L u' _ (fun w => ⟨rfl, fun x hx => hx⟩)
@@ -256,7 +256,7 @@ theorem wprop_same {u : Nat} {Q : Watcher → Prop} {m : M α} (h : ∀ s, (m s)
 
 theorem wpropLeafW (u : Nat) (Q : Watcher → Prop) (S : QStable Q) : LeafW (WProp u Q) where
   emit := fun o => by apply wprop_same; intro s; simp only [emit, modS]; split <;> rfl
-  setK := fun k => by apply wprop_same; intro s; rfl
+  runK := fun f _ => by apply wprop_same; intro s; rfl
   emitEv := fun w t p x => by apply wprop_same; intro s; simp only [emitEv, modS]; split <;> rfl
   popPid := fun u' p => wprop_modW u u' Q _ (fun _ => rfl)
     (fun w hw => S.shrink w _ (fun x hx => (List.mem_filter.mp hx).1) hw)
@@ -267,7 +267,7 @@ theorem wpropLeafW (u : Nat) (Q : Watcher → Prop) (S : QStable Q) : LeafW (WPr
 
 theorem blockedLeafW : LeafW (fun s : State => s.blocked = true) where
   emit := fun o => by intro s hs; simp only [emit, modS]; split <;> exact hs
-  setK := fun k => by intro s hs; exact hs
+  runK := fun f _ => by intro s hs; exact hs
   emitEv := fun w t p x => by intro s hs; simp only [emitEv, modS]; split <;> exact hs
   popPid := fun u p => by intro s hs; exact hs
   bumpHook := fun u h i => by intro s hs; exact hs
